@@ -98,3 +98,7 @@ mod tests {
         assert_eq!(set.len(), 1);
     }
 }
+
+#[cfg(kani)]
+#[path = "/verif/kani/aranya-runtime/head_set.rs"]
+mod verif_kani;
